@@ -128,6 +128,14 @@ def gen_prog(rng, cls):
     elif cls == "camempty":
         faults = ["camempty %d" % rng.choice([2, 3])]
         prog = [cfg0, "configure", "start", "stop"]
+    elif cls == "switchfail":
+        # C08: a re-configuration switches stream 0 to another camera / storage whose open fails (busy, unplugged), then the client carries on
+        which = rng.choice(["cam", "sto"])
+        faults = ["openfail %d 1" % (4 if which == "cam" else 5)]
+        other = "cfg 0 cam=%d sto=%d w=%d h=%d type=%d n=%d" % (4 if which == "cam" else 0, 5 if which == "sto" else 2, w, h, t, n)
+        prog = [cfg0, "configure"] + rng.choice([[], ["start", "stop"], ["start", "abort"]]) + [other, "configure"] + \
+               rng.choice([["start", "stop"], ["state"], ["start", "abort"], []]) + rng.choice([[cfg0, "configure", "start", "stop"], [other, "configure", "start", "stop"], []]) + \
+               rng.choice([["shutdown"], []])
     elif cls == "api":
         return gen_api(rng)
     else:
@@ -188,7 +196,11 @@ def gen_api(rng):
         prog.append(end)
     if rng.random() < .5 and prog[-1] != "shutdown":
         prog.append("shutdown")
-    return {"cls": "api", "ring": ring, "prog": prog, "faults": []}
+    # sometimes a device is busy/unplugged: its next open fails (a re-configuration that switches to it must leave nothing dangling)
+    faults = []
+    if rng.random() < 0.35:
+        faults = ["openfail %d %d" % (rng.choice([4, 5, 0, 2]), rng.choice([1, 1, 2]))]
+    return {"cls": "api", "ring": ring, "prog": prog, "faults": faults}
 
 
 def harness_scenario(sc):
